@@ -155,7 +155,7 @@ func (s *skeleton) visible(d, u int) bool {
 	return u >= d && s.inChain(u, s.innermost(d))
 }
 
-func (s *skeleton) isRoot(id int) bool   { return len(s.sites[id].chain) == 1 }
+func (s *skeleton) isRoot(id int) bool { return len(s.sites[id].chain) == 1 }
 func (s *skeleton) funcOf(id int) *skNode {
 	for _, x := range s.sites[id].chain {
 		if x.fn {
